@@ -23,6 +23,7 @@ func init() {
 	vRegister("H16_recheck", H16_recheck)
 	vRegister("H18_vec", H18_vec)
 	vRegister("H19_nth", H19_nth)
+	vRegister("H14_large", H14_large)
 	vNativeResetHooks = append(vNativeResetHooks, faiss.VerifReset)
 }
 
@@ -699,4 +700,62 @@ func H19_nth() {
 		return
 	}
 	complete(seg2, 3, "after-")
+}
+
+// H14_large: a segment above the 1000-vector threshold (the builder chooses the clustered index class and the
+// filtered search goes through the cluster API - emulated by the stand-in with one cluster, exact results):
+// concrete vectors (i, 1), symbolic query position, k, excluded block and eligible block.
+func H14_large() {
+	sim := index.EuclideanDistance
+	n := vParam("nLarge", 1100)
+	var docs []index.Document
+	var vecs []sVec
+	for i := 0; i < n; i++ {
+		id := fmt.Sprint("d", i)
+		v := []float32{float32(i), 1}
+		docs = append(docs, &vDoc{id: id, fields: []index.Field{vIDField(id), &vVecField{name: "v", vec: v, sim: sim}}})
+		vecs = append(vecs, sVec{uint64(i), v})
+	}
+	// choices first (so that shards split on them, not inside the build)
+	q := []float32{[]float32{0, 550.5, float32(n - 1)}[vChoice("q", 3)], 1}
+	k := int64([]int{1, 3}[vChoice("k", 2)])
+	exLo, exHi := [][2]int{{0, 0}, {0, 100}, {500, 600}}[vChoice("except", 3)][0], [][2]int{{0, 0}, {0, 100}, {500, 600}}[vChoice("except", 3)][1]
+	mode := vChoice("mode", 4) // 0 unfiltered; 1..3 filtered with an eligible block
+	elig := [][2]int{{0, 0}, {0, 200}, {540, 560}, {0, n}}[mode]
+	reopen := vBool("reopen")
+	var z ZapPlugin
+	segI, _, err := z.newWithChunkMode(docs, DefaultChunkMode)
+	vAssert(err == nil, "build")
+	var seg segment.Segment = segI
+	if reopen {
+		vAssert(segI.(*SegmentBase).Persist(vP("big.zap")) == nil, "persist")
+		seg, err = z.Open(vP("big.zap"))
+		vAssert(err == nil, "open")
+	}
+	var except *roaring.Bitmap
+	if exHi > exLo {
+		except = roaring.New()
+		except.AddRange(uint64(exLo), uint64(exHi))
+	}
+	excluded := func(d uint64) bool { return int(d) >= exLo && int(d) < exHi }
+	vi, err := seg.(segment.VectorSegment).InterpretVectorIndex("v", mode != 0, except)
+	vAssert(err == nil && vi != nil, "interpret")
+	if mode == 0 {
+		pl, err := vi.Search(q, k, nil)
+		vAssert(err == nil, "search-err")
+		sCheckVecResult(pl, vecs, sim, q, k, func(d uint64) bool { return !excluded(d) }, "")
+	} else {
+		var ids []uint64
+		for d := elig[0]; d < elig[1]; d++ {
+			ids = append(ids, uint64(d))
+		}
+		pl, err := vi.SearchWithFilter(q, k, ids, nil)
+		vAssert(err == nil, "search-err")
+		sCheckVecResult(pl, vecs, sim, q, k, func(d uint64) bool { return !excluded(d) && int(d) >= elig[0] && int(d) < elig[1] }, "f-")
+	}
+	vi.Close()
+	vAssert(seg.Close() == nil, "close")
+	vRunSpawned()
+	vAssert(faiss.VerifLive() == 0, "no-live-index")
+	vAssert(faiss.VerifDoubleClosed() == 0 && faiss.VerifUsedAfterClose() == 0, "no-misuse")
 }
